@@ -99,7 +99,7 @@ func TestC20(t *testing.T) {
 	}
 	for k := uint64(2); k <= maxK; k++ {
 		for j := uint64(1); j < k; j++ {
-			w := uint32(((uint64(1)<<32)*j/k)&^3)
+			w := uint32(((uint64(1) << 32) * j / k) &^ 3)
 			words = append(words, w, w+4)
 		}
 	}
